@@ -2858,6 +2858,20 @@ impl Interpreter {
         &mut self,
         gen_state: &Rc<RefCell<BytecodeGeneratorState>>,
     ) -> Result<Guarded, JsError> {
+        // The generator's environment (and the scopes of blocks it yields from) are
+        // guarded only while it runs; when it yields, finishes or throws they stay
+        // reachable through the generator object.  Drop every guard pushed during this
+        // resumption, otherwise each resumed generator leaves a root behind.
+        let env_guard_depth = self.env_guards.len();
+        let result = self.resume_bytecode_generator_inner(gen_state);
+        self.env_guards.truncate(env_guard_depth);
+        result
+    }
+
+    fn resume_bytecode_generator_inner(
+        &mut self,
+        gen_state: &Rc<RefCell<BytecodeGeneratorState>>,
+    ) -> Result<Guarded, JsError> {
         use bytecode_vm::{BytecodeVM, VmResult};
 
         // Check if generator is already completed
